@@ -11,6 +11,14 @@ from common import Result, rng_for
 from findings import classify_c01
 
 CORPUS = [
+    # keywords parsed once, then re-visited because of a sibling composition keyword / type list
+    ({"dependencies": {"a": {"required": ["b"]}, "c": False}, "not": {"type": "string"}}, [{"a": 1}, {"a": 1, "b": 2}, {"c": 1}, {}, "s"]),
+    ({"type": ["object", "array"], "title": "D", "dependencies": {"a": {"minProperties": 2}}, "items": {"type": "integer"},
+      "patternProperties": {"^x": {"type": "string"}}, "propertyNames": {"maxLength": 2}, "contains": {"const": 1}},
+     [{"a": 1}, {"a": 1, "b": 2}, [1], ["a"], [2], {"x": 1}, {"x": "s"}, {"abc": 1}]),
+    ({"anyOf": [{"minimum": 1}], "properties": {"p": {"type": "integer"}}, "items": [{"type": "string"}], "additionalItems": False,
+      "additionalProperties": {"type": "null"}, "contains": {"type": "string"}, "propertyNames": {"pattern": "^[pq]"}},
+     [{"p": 1}, {"p": "a"}, {"q": None}, {"q": 1}, {"z": None}, ["a"], ["a", "b"], [1], 0, 1]),
     # interaction templates named in the property's quantifier
     ({"type": "object", "title": "T", "required": ["a"], "additionalProperties": False}, [{"a": 1}, {}, {"b": 1}]),
     ({"required": ["a"], "additionalProperties": False}, [{"a": 1}, {}]),
